@@ -26,6 +26,20 @@ package state
 //@   update when true: reset sh.issued
 //@   ensures zero: sh.highest == 0 && sh.outSeq.v == 0
 
+// The receive window and the outgoing counter belong to different keys (incoming / outgoing): each is restarted
+// only together with its own key.
+//@ func SequenceHandler.ResetIn
+//@   modifies sh.highest, sh.bitMap, sh.lock
+//@   update when true: reset sh.seen
+//@   ensures zero [C03]: sh.highest == 0 && sh.bitMap == 0
+//@ func SequenceHandler.ResetOut
+//@   modifies sh.outSeq.v
+//@   update when true: reset sh.issued
+//@   ensures zero [C15]: sh.outSeq.v == 0
+//@ func SequenceHandler.rolloverIndicated
+//@   modifies sh.lock
+//@   ensures cond [C15]: result == (sh.highest >= 0xFFFFFF00 && seqNum <= 255)
+
 //@ func SequenceHandler.RolloverRequired
 //@   modifies sh.highest, sh.lock
 //@   update when result: reset sh.seen
@@ -80,7 +94,8 @@ package state
 //@   ensures cipher: result == nil ==> s.inCipher != nil
 
 //@ func EncryptionSession.Out
-//@   modifies s.lock, s.outKey, s.outCipher, s.reglSeqHandler.outSeq.v, s.prioSeqHandler.outSeq.v, s.prioSeqHandler.highest, s.prioSeqHandler.lock, s.reglSeqHandler.lock, s.reglSeqHandler.issued, s.prioSeqHandler.issued, s.prioSeqHandler.seen, s.outEpoch
+// (the frame below is the statement "sealing never touches a receive window": replay protection, C03)
+//@   modifies s.lock, s.outKey, s.outCipher, s.reglSeqHandler.outSeq.v, s.prioSeqHandler.outSeq.v, s.prioSeqHandler.lock, s.reglSeqHandler.lock, s.reglSeqHandler.issued, s.prioSeqHandler.issued, s.outEpoch
 //@   callsite SequenceHandler.NextOut under-session-lock [C15]: s.lock.held
 //@   ensures nonzero [C15]: err == nil ==> seqNum != 0 && c != nil
 //@   ensures current-cipher [C15]: err == nil ==> c == s.outCipher && aeadkey(c) == base(s.outKey)
@@ -91,7 +106,9 @@ package state
 //@   ensures no-epoch-skip [C15]: s.outEpoch == old(s.outEpoch) || s.outEpoch == old(s.outEpoch) + 1
 
 //@ func EncryptionSession.In
-//@   modifies s.lock, s.inKey, s.inCipher, s.reglSeqHandler.highest, s.prioSeqHandler.highest, s.prioSeqHandler.outSeq.v, s.prioSeqHandler.lock, s.reglSeqHandler.lock, s.reglSeqHandler.seen, s.prioSeqHandler.seen, s.prioSeqHandler.issued, s.inEpoch
+// (the frame below is the statement "receiving never touches an outgoing counter": nonce uniqueness, C15)
+//@   modifies s.lock, s.inKey, s.inCipher, s.reglSeqHandler.highest, s.prioSeqHandler.highest, s.prioSeqHandler.bitMap, s.prioSeqHandler.lock, s.reglSeqHandler.lock, s.reglSeqHandler.seen, s.prioSeqHandler.seen, s.inEpoch
+//@   ensures priority-frames-never-restart-a-window [C03]: prio ==> s.reglSeqHandler.highest == old(s.reglSeqHandler.highest) && s.prioSeqHandler.highest == old(s.prioSeqHandler.highest) && s.prioSeqHandler.bitMap == old(s.prioSeqHandler.bitMap)
 //@   ensures cipher [C15]: err == nil ==> c != nil && c == s.inCipher && aeadkey(c) == base(s.inKey)
 //@   ensures rollover-cond [C15]: err == nil && !prio ==> (s.inEpoch == old(s.inEpoch) + 1) == rollCond(old(s.reglSeqHandler.highest), seqNum)
 //@   ensures rollover-restarts [C15]: err == nil && s.inEpoch != old(s.inEpoch) ==> s.reglSeqHandler.highest == 0 && s.prioSeqHandler.highest == 0
